@@ -384,10 +384,11 @@ theorem ownerAt_isSome_root {t t' : Tree} (hsz : t'.wins.size = t.wins.size)
     leaves a restore pending or does not change `cursorSpec`. -/
 theorem requests_of_step {t t' : Tree} (hg : Good15 t) (hwf' : wfB t' = true)
     (hinv : WinFlush.InvC encCell t' (snapshot t))
-    (hflags : t'.root = t.root ∨ (t'.root.needsExpose = true ∧ t'.root.needsLater = true))
+    (hflags : (t'.root.damage = t.root.damage ∧ t'.root.needsExpose = t.root.needsExpose ∧
+                t'.root.needsLater = t.root.needsLater) ∨ (t'.root.needsExpose = true ∧ t'.root.needsLater = true))
     (hroot : (t'.wins[0]?).map rootFace = (t.wins[0]?).map rootFace) (hchain : ChainSame t t') :
     Pending t' ∨ cursorSpec t' = cursorSpec t := by
-  rcases hflags with hr | ⟨h1, h2⟩
+  rcases hflags with ⟨hr, hr2, hr3⟩ | ⟨h1, h2⟩
   · by_cases hd : t.root.damage = []
     · right
       have hd' : t'.root.damage = [] := by rw [hr]; exact hd
@@ -416,7 +417,7 @@ theorem requests_of_step {t t' : Tree} (hg : Good15 t) (hwf' : wfB t' = true)
           rw [hce, hc']; exact hat'
     · left
       have := hg.flagged hd
-      exact ⟨.inr (by rw [hr]; exact this), by rw [hr]; exact hg.later (.inl this)⟩
+      exact ⟨.inr (by rw [hr2]; exact this), by rw [hr3]; exact hg.later (.inl this)⟩
   · exact .inl ⟨.inr h1, h2⟩
 
 
@@ -597,7 +598,7 @@ theorem hide_requests {fx : Fixes} (hfx1 : fx.hiddenRoot = true) (hfx2 : fx.chai
       refine requests_of_step hg (by rw [wfB_wins hwf]; exact hwf'') hInv ?_ (by rw [hwf]; exact hroot'')
         (chainSame_trans hcs (chainSame_wins hwf))
       rcases hflags with h | ⟨a, b, _⟩
-      · exact .inl (hrf.trans h)
+      · exact .inl ⟨by rw [hrf, h], by rw [hrf, h], by rw [hrf, h]⟩
       · exact .inr ⟨by rw [hrf]; exact a, by rw [hrf]; exact b⟩
     rcases hide_struct h2 hw with ⟨hp, ht''⟩ | ⟨p, pw, hp, hpw, hwins⟩
     · subst hh
@@ -790,7 +791,7 @@ theorem show_requests {fx : Fixes} (hfx2 : fx.chainRestore = true) {t t' : Tree}
       refine requests_of_step hg (by rw [wfB_wins hwf]; exact hwf'') hInv ?_ (by rw [hwf]; exact hroot'')
         (chainSame_trans hcs (chainSame_wins hwf))
       rcases hflags with h | ⟨a, b, _⟩
-      · exact .inl (hrf.trans h)
+      · exact .inl ⟨by rw [hrf, h], by rw [hrf, h], by rw [hrf, h]⟩
       · exact .inr ⟨by rw [hrf]; exact a, by rw [hrf]; exact b⟩
     rcases show_struct h2 hw with ⟨hp, hw''⟩ | ⟨p, pw, hp, hpw, hwins⟩
     · subst hh
@@ -892,7 +893,7 @@ theorem move_requests {t t' : Tree} {win : Nat} {r : Rect} (hg : Good15 t) (h0 :
         (chainSame_wins hws)
   refine requests_of_step hg hwf' hinv ?_ hroot hcs
   rcases hflags with h | ⟨a, b, _⟩
-  · exact .inl h
+  · exact .inl ⟨by rw [h], by rw [h], by rw [h]⟩
   · exact .inr ⟨a, b⟩
 
 theorem setGeometryExposed_wf {t t' : Tree} {fuel win : Nat} {r : Rect} (hwf : wfB t = true)
@@ -907,6 +908,446 @@ theorem setGeometryExposed_wf {t t' : Tree} {fuel win : Nat} {r : Rect} (hwf : w
   · rw [wfB_wins hws]; exact hwf
   · rw [wfB_wins hws]
     exact wfB_set_same (w' := { w with rect := r }) hwf hw.1 rfl rfl rfl
+
+
+/-! ### `tickit_window_close`: what it does to the store, and that it keeps the store invariant -/
+
+theorem winOk_intro {t : Tree} {j : Nat} {x : Win}
+    (hp : ∀ p, x.parent = some p → p < j ∧ x.isRoot = false ∧ ∃ pw, t.wins[p]? = some pw ∧ pw.freed = false ∧ j ∈ pw.children)
+    (hc : ∀ c ∈ x.children, ∃ cw, t.wins[c]? = some cw ∧ cw.freed = false ∧ cw.parent = some j)
+    (hf : ∀ c, x.focusedChild = some c → ∃ cw, t.wins[c]? = some cw ∧ cw.freed = false ∧ cw.parent = some j ∧ cw.isVisible = true) :
+    winOk t j x = true := by
+  unfold winOk
+  simp only [Bool.and_eq_true, List.all_eq_true]
+  refine ⟨⟨?_, ?_⟩, ?_⟩
+  · cases hpar : x.parent with
+    | none => rfl
+    | some p =>
+      obtain ⟨h1, h2, pw, h3, h4, h5⟩ := hp p hpar
+      simp [h1, h2, h3, h4, h5]
+  · intro c hcm
+    obtain ⟨cw, h1, h2, h3⟩ := hc c hcm
+    simp [h1, h2, h3]
+  · cases hfc : x.focusedChild with
+    | none => rfl
+    | some c =>
+      obtain ⟨cw, h1, h2, h3, h4⟩ := hf c hfc
+      simp [h1, h2, h3, h4]
+
+/-- The parent's record after REMOVE. -/
+def closedParent (pw : Win) (win : Nat) : Win :=
+  { pw with children := pw.children.erase win,
+            focusedChild := if pw.focusedChild = some win then none else pw.focusedChild }
+
+/-- The store after `tickit_window_close(win)` of a window with a parent. -/
+def closedStore (t : Tree) (win p : Nat) (w pw : Win) (i : Nat) : Option Win :=
+  if i = win then some { w with parent := none, isClosed := true }
+  else if i = p then some (closedParent pw win)
+  else t.wins[i]?
+
+theorem close_struct {t t' : Tree} {fuel win : Nat} {w : Win} (hh : WinTree.close t fuel win = .ok t') (hw : Live t win w)
+    (hne : ∀ p, w.parent = some p → p ≠ win) :
+    t'.wins.size = t.wins.size ∧
+    ((w.parent = none ∧ t'.wins = (WinTree.set t win { w with isClosed := true }).wins ∧ t'.root = t.root) ∨
+     (∃ p pw, w.parent = some p ∧ Live t p pw ∧ win ∈ pw.children ∧ ∀ i : Nat, t'.wins[i]? = closedStore t win p w pw i)) := by
+  unfold WinTree.close at hh
+  simp only [bind_ok] at hh
+  obtain ⟨w0, hg, hh⟩ := hh
+  have := live_unique (get_ok.mp hg) hw; subst this
+  split at hh
+  · next p hp =>
+    simp only [bind_ok] at hh
+    obtain ⟨t1, hpurge, t3, hrem, hmod⟩ := hh
+    have hw1 : t1.wins = t.wins := (WinFlush.purge_spec t fuel win t1 hpurge).1
+    have hpne := hne p hp
+    unfold doHierarchyChange at hrem
+    simp only [bind_ok, pure_ok] at hrem
+    obtain ⟨pw, hgp, w1, _, cs, hcs, w2, hgw2, t2, ht2, hrem⟩ := hrem
+    have hpw1 := get_ok.mp hgp
+    have hpw : Live t p pw := ⟨by rw [← hw1]; exact hpw1.1, hpw1.2⟩
+    obtain ⟨hin, _⟩ := listRemove_mem hcs
+    have hcs' : cs = pw.children.erase win := by
+      unfold listRemove at hcs; split at hcs
+      · cases hcs; rfl
+      · cases hcs
+    have hw2 : w2 = w0 := by
+      have := (get_ok.mp hgw2).1
+      rw [set_lookup hpw1.1] at this
+      simp only [hpne, if_false] at this
+      rw [hw1, hw.1] at this; cases this; rfl
+    subst hw2
+    have hwins3 : t3.wins = t2.wins := by
+      split at hrem
+      · obtain ⟨a, _, _⟩ := expose_frame _ _ _ _ _ hrem; exact a
+      · simp only [pure_ok] at hrem; subst hrem; rfl
+    have hl2 : ∀ i : Nat, t2.wins[i]? =
+        if i = win then some { w2 with parent := none }
+        else if i = p then some { pw with children := cs, focusedChild := if pw.focusedChild = some win then none else pw.focusedChild }
+        else t.wins[i]? := by
+      intro i
+      rw [← ht2]
+      have hwin2 : (WinTree.set t1 p { pw with children := cs, focusedChild := if pw.focusedChild = some win then none else pw.focusedChild }).wins[win]? = some w2 := by
+        rw [set_lookup hpw1.1]; simp only [hpne, if_false]; rw [hw1]; exact hw.1
+      rw [set_lookup hwin2]
+      by_cases hi : i = win
+      · subst hi; simp
+      · have h1 : ¬ win = i := fun h => hi h.symm
+        simp only [h1, hi, if_false]
+        rw [set_lookup hpw1.1]
+        by_cases hip : i = p
+        · subst hip; simp
+        · have h2 : ¬ p = i := fun h => hip h.symm
+          simp only [h2, hip, if_false]; rw [hw1]
+    unfold WinTree.modify at hmod
+    simp only [bind_ok, pure_ok] at hmod
+    obtain ⟨w4, hg4, hmod⟩ := hmod
+    have hw4 : w4 = { w2 with parent := none } := by
+      have := (get_ok.mp hg4).1
+      rw [hwins3, hl2 win] at this
+      simp at this; exact this.symm
+    subst hw4
+    subst hmod
+    have hsz2 : t2.wins.size = t.wins.size := by rw [← ht2]; simp [WinTree.set, hw1]
+    refine ⟨?_, .inr ⟨p, pw, hp, hpw, hin, ?_⟩⟩
+    · simp [WinTree.set, hwins3, hsz2]
+    · intro i
+      have hl3 : t3.wins[win]? = some { w2 with parent := none } := by rw [hwins3, hl2 win]; simp
+      rw [set_lookup hl3]
+      unfold closedStore
+      by_cases hi : i = win
+      · subst hi; simp
+      · have h1 : ¬ win = i := fun h => hi h.symm
+        simp only [h1, hi, if_false]
+        rw [hwins3, hl2 i]
+        simp only [hi, if_false, hcs', closedParent]
+  · next hp =>
+    simp only [bind_ok, pure_ok] at hh
+    obtain ⟨t1, ht1, hmod⟩ := hh
+    subst ht1
+    unfold WinTree.modify at hmod
+    simp only [bind_ok, pure_ok] at hmod
+    obtain ⟨w4, hg4, hmod⟩ := hmod
+    have := live_unique (get_ok.mp hg4) hw; subst this
+    subst hmod
+    exact ⟨by simp [WinTree.set], .inl ⟨hp, rfl, rfl⟩⟩
+
+
+/-- `tickit_window_close` preserves the store invariant (child lists without repetitions). -/
+theorem close_wf {t t' : Tree} {fuel win : Nat} (hwf : wfB t = true) (hnd : WinFlush.ChildrenNodup t)
+    (hh : WinTree.close t fuel win = .ok t') : wfB t' = true := by
+  have hw : ∃ w, Live t win w := by
+    unfold WinTree.close at hh
+    simp only [bind_ok] at hh
+    obtain ⟨w0, hg0, _⟩ := hh
+    exact ⟨w0, get_ok.mp hg0⟩
+  obtain ⟨w, hw⟩ := hw
+  have hne : ∀ p, w.parent = some p → p ≠ win := fun p hp hc => by
+    have := (wf_parent hwf hw hp).1
+    exact absurd (hc ▸ this) (Nat.lt_irrefl _)
+  obtain ⟨_, hcase⟩ := close_struct hh hw hne
+  rcases hcase with ⟨_, hwins, _⟩ | ⟨p, pw, hp, hpw, hin, hl⟩
+  · rw [wfB_wins hwins]
+    exact wfB_set_same (w' := { w with isClosed := true }) hwf hw.1 rfl rfl rfl
+  · obtain ⟨hplt, _, _, _, _⟩ := wf_parent hwf hw hp
+    have hpne : p ≠ win := hne p hp
+    have hlo : ∀ i : Nat, i ≠ win → i ≠ p → t'.wins[i]? = t.wins[i]? := by
+      intro i h1 h2; rw [hl i]; unfold closedStore; simp [h1, h2]
+    have hlw : t'.wins[win]? = some { w with parent := none, isClosed := true } := by
+      rw [hl win]; unfold closedStore; simp
+    have hlp : t'.wins[p]? = some (closedParent pw win) := by
+      rw [hl p]; unfold closedStore; simp [hpne]
+    have hndp : pw.children.Nodup := hnd p pw hpw.1
+    have hmem_erase : ∀ c, c ∈ pw.children.erase win ↔ (c ∈ pw.children ∧ c ≠ win) := by
+      intro c
+      constructor
+      · intro hc
+        exact ⟨List.mem_of_mem_erase hc, fun h => by subst h; exact (List.Nodup.not_mem_erase hndp) hc⟩
+      · rintro ⟨h1, h2⟩; exact (List.mem_erase_of_ne h2).mpr h1
+    -- a live window of `t` other than `win`, `p`, seen from the new store
+    have look : ∀ (c : Nat) (cw : Win), t.wins[c]? = some cw → c ≠ win →
+        ∃ cw', t'.wins[c]? = some cw' ∧ cw'.freed = cw.freed ∧ cw'.parent = cw.parent ∧ cw'.isVisible = cw.isVisible := by
+      intro c cw hcw h1
+      by_cases h2 : c = p
+      · subst h2
+        rw [hpw.1] at hcw; cases hcw
+        exact ⟨_, hlp, rfl, rfl, rfl⟩
+      · exact ⟨cw, by rw [hlo c h1 h2]; exact hcw, rfl, rfl, rfl⟩
+    apply wfB_of
+    · obtain ⟨r, hr0, h1, h2, h3⟩ := wf_root' hwf
+      have h0w : (0 : Nat) ≠ win := by
+        intro hc; subst hc
+        have := hw.1; rw [hr0] at this; cases this
+        rw [h3] at hp; cases hp
+      by_cases h0p : (0 : Nat) = p
+      · subst h0p
+        have := hpw.1; rw [hr0] at this; cases this
+        exact ⟨_, hlp, h1, h2, h3⟩
+      · exact ⟨r, by rw [hlo 0 h0w h0p]; exact hr0, h1, h2, h3⟩
+    · intro j x hx hf
+      by_cases hjw : j = win
+      · subst hjw
+        rw [hlw] at hx; cases hx
+        apply winOk_intro
+        · intro q hq; cases hq
+        · intro c hc
+          obtain ⟨cw, hcw, hcp⟩ := wf_child hwf hw hc
+          have hlt := (wf_parent hwf hcw hcp).1
+          obtain ⟨cw', h1, h2, h3, _⟩ := look c cw hcw.1 (by omega)
+          exact ⟨cw', h1, h2.trans hcw.2, h3.trans hcp⟩
+        · intro c hc
+          obtain ⟨cw, hcw, hcp, hcv⟩ := wf_focused hwf hw hc
+          have hlt := (wf_parent hwf hcw hcp).1
+          obtain ⟨cw', h1, h2, h3, h4⟩ := look c cw hcw.1 (by omega)
+          exact ⟨cw', h1, h2.trans hcw.2, h3.trans hcp, h4.trans hcv⟩
+      · by_cases hjp : j = p
+        · subst hjp
+          rw [hlp] at hx; cases hx
+          apply winOk_intro
+          · intro q hq
+            obtain ⟨h1, h2, qw, hqw, hmem⟩ := wf_parent hwf hpw hq
+            have hqne : q ≠ win := Nat.ne_of_lt (Nat.lt_trans h1 hplt)
+            have hqnp : q ≠ j := Nat.ne_of_lt h1
+            exact ⟨h1, h2, qw, by rw [hlo q hqne hqnp]; exact hqw.1, hqw.2, hmem⟩
+          · intro c hc
+            obtain ⟨hc1, hc2⟩ := (hmem_erase c).mp hc
+            obtain ⟨cw, hcw, hcp⟩ := wf_child hwf hpw hc1
+            obtain ⟨cw', h1, h2, h3, _⟩ := look c cw hcw.1 hc2
+            exact ⟨cw', h1, h2.trans hcw.2, h3.trans hcp⟩
+          · intro c hc
+            unfold closedParent at hc
+            by_cases hfw : pw.focusedChild = some win
+            · simp [hfw] at hc
+            · simp only [hfw, if_false] at hc
+              obtain ⟨cw, hcw, hcp, hcv⟩ := wf_focused hwf hpw hc
+              have hcne : c ≠ win := fun h => hfw (h ▸ hc)
+              obtain ⟨cw', h1, h2, h3, h4⟩ := look c cw hcw.1 hcne
+              exact ⟨cw', h1, h2.trans hcw.2, h3.trans hcp, h4.trans hcv⟩
+        · rw [hlo j hjw hjp] at hx
+          have hxl : Live t j x := ⟨hx, hf⟩
+          apply winOk_intro
+          · intro q hq
+            obtain ⟨h1, h2, qw, hqw, hmem⟩ := wf_parent hwf hxl hq
+            by_cases hqw' : q = win
+            · subst hqw'
+              have := live_unique hqw hw; subst this
+              exact ⟨h1, h2, _, hlw, hw.2, hmem⟩
+            · by_cases hqp : q = p
+              · subst hqp
+                have := live_unique hqw hpw; subst this
+                exact ⟨h1, h2, _, hlp, hpw.2, (hmem_erase j).mpr ⟨hmem, hjw⟩⟩
+              · exact ⟨h1, h2, qw, by rw [hlo q hqw' hqp]; exact hqw.1, hqw.2, hmem⟩
+          · intro c hc
+            obtain ⟨cw, hcw, hcp⟩ := wf_child hwf hxl hc
+            have hcne : c ≠ win := by
+              intro h; subst h
+              have := live_unique hcw hw; subst this
+              rw [hp] at hcp; cases hcp; exact hjp rfl
+            obtain ⟨cw', h1, h2, h3, _⟩ := look c cw hcw.1 hcne
+            exact ⟨cw', h1, h2.trans hcw.2, h3.trans hcp⟩
+          · intro c hc
+            obtain ⟨cw, hcw, hcp, hcv⟩ := wf_focused hwf hxl hc
+            have hcne : c ≠ win := by
+              intro h; subst h
+              have := live_unique hcw hw; subst this
+              rw [hp] at hcp; cases hcp; exact hjp rfl
+            obtain ⟨cw', h1, h2, h3, h4⟩ := look c cw hcw.1 hcne
+            exact ⟨cw', h1, h2.trans hcw.2, h3.trans hcp, h4.trans hcv⟩
+
+
+/-- `tickit_window_expose` leaves the tree as it is, or flags an expose. -/
+theorem expose_same_or_flagged : ∀ (fuel : Nat) (t : Tree) (win : Nat) (r : Option Rect) (t' : Tree),
+    expose t fuel win r = .ok t' → t' = t ∨ (t'.root.needsExpose = true ∧ t'.root.needsLater = true) := by
+  intro fuel
+  induction fuel with
+  | zero => intro t win r t' h; simp [expose] at h
+  | succ f ih =>
+    intro t win r t' h
+    rw [expose] at h
+    simp only [bind_ok] at h
+    obtain ⟨w, _, h⟩ := h
+    split at h
+    · simp only [pure_ok] at h; exact .inl h.symm
+    · split at h
+      · simp only [pure_ok] at h; exact .inl h.symm
+      · split at h
+        · split at h
+          · simp only [pure_ok] at h; exact .inl h.symm
+          · exact ih _ _ _ _ h
+        · split at h
+          · cases h
+          · simp only [pure_ok] at h; exact .inl h.symm
+          · split at h
+            · cases h
+            · simp only [pure_ok] at h; subst h; exact .inr ⟨rfl, rfl⟩
+
+theorem close_flags {t t' : Tree} {fuel win : Nat} (hh : WinTree.close t fuel win = .ok t') :
+    (t'.root.damage = t.root.damage ∧ t'.root.needsExpose = t.root.needsExpose ∧ t'.root.needsLater = t.root.needsLater) ∨
+    (t'.root.needsExpose = true ∧ t'.root.needsLater = true) := by
+  unfold WinTree.close at hh
+  simp only [bind_ok] at hh
+  obtain ⟨w0, hg, hh⟩ := hh
+  have hmodroot : ∀ (ta tb : Tree), WinTree.modify ta win (fun w => { w with isClosed := true }) = .ok tb → tb.root = ta.root := by
+    intro ta tb hm
+    unfold WinTree.modify at hm
+    simp only [bind_ok, pure_ok] at hm
+    obtain ⟨_, _, hm⟩ := hm
+    subst hm; rfl
+  split at hh
+  · simp only [bind_ok] at hh
+    obtain ⟨t1, hpurge, t3, hrem, hmod⟩ := hh
+    obtain ⟨_, hd1, he1, hl1, _⟩ := WinFlush.purge_spec t fuel win t1 hpurge
+    rw [hmodroot _ _ hmod]
+    unfold doHierarchyChange at hrem
+    simp only [bind_ok, pure_ok] at hrem
+    obtain ⟨pw, _, w1, _, cs, _, w2, _, t2, ht2, hrem⟩ := hrem
+    have hr2 : t2.root = t1.root := by rw [← ht2]; rfl
+    split at hrem
+    · rcases expose_same_or_flagged _ _ _ _ _ hrem with h | h
+      · rw [h, hr2]; exact .inl ⟨hd1, he1, hl1⟩
+      · exact .inr h
+    · simp only [pure_ok] at hrem; subst hrem
+      rw [hr2]; exact .inl ⟨hd1, he1, hl1⟩
+  · simp only [bind_ok, pure_ok] at hh
+    obtain ⟨t1, ht1, hmod⟩ := hh
+    subst ht1
+    rw [hmodroot _ _ hmod]; exact .inl ⟨rfl, rfl, rfl⟩
+
+/-- Windows below the root stay below it when nothing above them is rewritten. -/
+theorem anc_transfer_below {t t' : Tree} {win : Nat}
+    (hlook : ∀ (c : Nat) (cw : Win), Live t c cw → c ≠ win → ∃ cw', Live t' c cw' ∧ cw'.parent = cw.parent)
+    (hwf : wfB t = true) : ∀ {x : Nat}, x < win → Anc t x 0 → Anc t' x 0 := by
+  intro x hx ha
+  generalize hz : (0 : Nat) = z at ha
+  induction ha with
+  | refl => exact .refl _
+  | @step o p y w hw hp _ ih =>
+    have hlt := (wf_parent hwf hw hp).1
+    obtain ⟨w', hw', hp'⟩ := hlook o w hw (Nat.ne_of_lt hx)
+    exact .step hw' (hp'.trans hp) (ih (Nat.lt_trans hlt hx) hz)
+
+/-- `restore_requested` for `tickit_window_close` (repaired source). -/
+theorem close_requests {fx : Fixes} (hfx2 : fx.chainRestore = true) {t t' : Tree} {win : Nat}
+    (hg : Good15 t) (hh : closeWin fx t win = .ok t') : Pending t' ∨ cursorSpec t' = cursorSpec t := by
+  unfold closeWin at hh
+  simp only [bind_ok, pure_ok] at hh
+  obtain ⟨w, hgw, t'', h2, hh⟩ := hh
+  have hw := get_ok.mp hgw
+  obtain ⟨r0, hr0, hr0f, hr0r, hr0p, hr0t, hr0l⟩ := hg.rootWin.ex
+  have hne : ∀ p, w.parent = some p → p ≠ win := fun p hp hc => by
+    have := (wf_parent hg.wf hw hp).1
+    exact absurd (hc ▸ this) (Nat.lt_irrefl _)
+  obtain ⟨hsz, hcase⟩ := close_struct h2 hw hne
+  have hwf'' := close_wf hg.wf hg.nodup h2
+  have hwinsf : t'.wins = t''.wins := by rw [← hh]; exact chainRestoreAfter_wins _ _ _ _
+  have hwf' : wfB t' = true := by rw [wfB_wins hwinsf]; exact hwf''
+  rcases hcase with ⟨hp, hwins, hroot⟩ | ⟨p, pw, hp, hpw, hin, hl⟩
+  · -- no parent: only the `closed` mark is written
+    right
+    subst hh
+    simp only [hp, chainRestoreAfter]
+    have hag : Agree t (WinTree.set t win { w with isClosed := true }) := agree_set hw.1 rfl
+    rw [cursorSpec_wins hwins]
+    apply cursorSpec_agree hag
+    intro a a' ha ha'
+    left
+    rw [set_lookup hw.1] at ha'
+    by_cases he : win = chainEnd t (treeFuel t) 0
+    · simp only [he, if_true] at ha'
+      rw [← he, hw.1] at ha; cases ha; cases ha'; exact ⟨rfl, rfl⟩
+    · simp only [he, if_false] at ha'
+      rw [ha] at ha'; cases ha'; exact ⟨rfl, rfl⟩
+  · have hplt := (wf_parent hg.wf hw hp).1
+    have hpne : p ≠ win := hne p hp
+    have h0 : win ≠ 0 := fun h => by subst h; omega
+    have hlo : ∀ i : Nat, i ≠ win → i ≠ p → t''.wins[i]? = t.wins[i]? := by
+      intro i h1 h2'; rw [hl i]; unfold closedStore; simp [h1, h2']
+    have hlw : t''.wins[win]? = some { w with parent := none, isClosed := true } := by
+      rw [hl win]; unfold closedStore; simp
+    have hlp : t''.wins[p]? = some (closedParent pw win) := by
+      rw [hl p]; unfold closedStore; simp [hpne]
+    have hface : (t''.wins[0]?).map rootFace = (t.wins[0]?).map rootFace := by
+      by_cases h0p : (0 : Nat) = p
+      · subst h0p
+        have := hpw.1; rw [hr0] at this; cases this
+        rw [hlp, hr0]; rfl
+      · rw [hlo 0 (fun h => h0 h.symm) h0p]
+    by_cases hrv : r0.isVisible = false
+    · -- hidden root: nothing to show before or after
+      right
+      rw [cursorSpec_root_hidden hg.wf hr0 hrv]
+      have : ∃ r', t'.wins[0]? = some r' ∧ r'.isVisible = false := by
+        rw [hwinsf]
+        have := hface
+        rw [hr0] at this
+        cases h1 : t''.wins[0]? with
+        | none => rw [h1] at this; simp at this
+        | some r' =>
+          rw [h1] at this; simp [rootFace] at this
+          exact ⟨r', rfl, this.1.trans hrv⟩
+      obtain ⟨r', hr', hv'⟩ := this
+      exact cursorSpec_root_hidden hwf' hr' hv'
+    · have hrv' : r0.isVisible = true := by simpa using hrv
+      obtain ⟨hinv, _, _, _, _, _, _, _⟩ :=
+        WinFlush.close_step encCell (snapshot t) t t'' win h2 h0
+          ⟨hg.wfp, hg.nodup, hg.noSelf, hg.onlyRoot, hg.rootWin⟩ ⟨⟨r0, hr0, hr0f, hrv', hr0t, hr0l⟩⟩
+          hg.nonempty hg.pos (invC_snapshot t)
+      have hflags := close_flags h2
+      -- the chain: `win` keeps its link and flags; the parent's link may be cleared
+      have chain_of : (pw.focusedChild = some win → ¬ OnChain t p) → ChainSame t t'' := by
+        intro hoff
+        refine ⟨hsz, fun y wy ho hwy => ?_⟩
+        by_cases hyw : y = win
+        · subst hyw
+          have := live_unique hwy hw; subst this
+          exact ⟨_, ⟨hlw, hw.2⟩, rfl, rfl, rfl⟩
+        · by_cases hyp : y = p
+          · subst hyp
+            have := live_unique hwy hpw; subst this
+            refine ⟨_, ⟨hlp, hpw.2⟩, ?_, rfl, rfl⟩
+            unfold closedParent
+            by_cases hfw : wy.focusedChild = some win
+            · exact absurd ho (hoff hfw)
+            · simp [hfw]
+          · exact ⟨wy, ⟨by rw [hlo y hyw hyp]; exact hwy.1, hwy.2⟩, rfl, rfl, rfl⟩
+      have finish : ∀ tf : Tree, tf.wins = t''.wins → tf.root = t''.root → ChainSame t t'' →
+          Pending tf ∨ cursorSpec tf = cursorSpec t := by
+        intro tf hwf hrf hcs
+        have hInv : WinFlush.InvC encCell tf (snapshot t) := by
+          intro L C x l c ho
+          rw [WinFlush.ownerAt_congr tf t'' hwf] at ho
+          rw [hrf]; exact hinv L C x l c ho
+        refine requests_of_step hg (by rw [wfB_wins hwf]; exact hwf'') hInv ?_ (by rw [hwf]; exact hface)
+          (chainSame_trans hcs (chainSame_wins hwf))
+        rw [hrf]; exact hflags
+      by_cases hfc : pw.focusedChild = some win
+      · have ha : (closedParent pw win).focusedChild = none := by unfold closedParent; simp [hfc]
+        subst hh
+        simp only [hp, chainRestoreAfter, hpw.1, hlp, hfx2, hfc, ha, Bool.true_and]
+        unfold requestRestoreAbove
+        cases hgr : getRoot t'' (treeFuel t'') p with
+        | ok r => exact .inl ⟨.inl rfl, rfl⟩
+        | ub e =>
+          simp only []
+          have hoff : ¬ OnChain t p := by
+            intro ho
+            have hlook : ∀ (c : Nat) (cw : Win), Live t c cw → c ≠ win → ∃ cw', Live t'' c cw' ∧ cw'.parent = cw.parent := by
+              intro c cw hcw h1
+              by_cases h2' : c = p
+              · subst h2'
+                have := live_unique hcw hpw; subst this
+                exact ⟨_, ⟨hlp, hpw.2⟩, rfl⟩
+              · exact ⟨cw, ⟨by rw [hlo c h1 h2']; exact hcw.1, hcw.2⟩, rfl⟩
+            have hanc := anc_transfer_below hlook hg.wf hplt (onChain_anc hg.wf ho)
+            have hlt'' : p < treeFuel t'' := by
+              unfold treeFuel; rw [hsz]; exact Nat.lt_succ_of_lt (live_lt hpw)
+            have := getRoot_anc hwf'' (treeFuel t'') p _ hlt'' ⟨hlp, hpw.2⟩ hanc
+            rw [hgr] at this; cases this
+          exact finish t'' rfl rfl (chain_of (fun _ => hoff))
+      · have ha : (closedParent pw win).focusedChild = pw.focusedChild := by unfold closedParent; simp [hfc]
+        subst hh
+        simp only [hp, chainRestoreAfter, hpw.1, hlp, ha, ne_eq, not_true_eq_false, decide_false, Bool.and_false,
+          Bool.false_eq_true, if_false]
+        exact finish t'' rfl rfl (chain_of (fun h => absurd h hfc))
 
 end WinFocus
 end Tickit
